@@ -28,6 +28,34 @@ def _subjects(cx):
     return SUBJECTS + (['verif_controls::BadSubject'] if cx.control else [])
 
 
+def _lists(cx, adt_path):
+    """(live list field, waiting list field) of a subject type: the two MutRc|MutArc<Option<SmallVec<[Box<dyn Publisher>]>>> cells;
+    the live one is the one load() appends to"""
+    from ..core import Incomplete
+    F = cx.facts
+    cells = roles.field_where(cx, adt_path, lambda t, ti: roles.is_cell_of(F, t, lambda o: roles.is_option_of(F, o)) and
+                              F.mentions(ti, lambda x: x['k'] == 'dyn' and any(tr['p'].endswith('Publisher') for tr in x['tr'])), 'subscriber list', unique=False)
+    if len(cells) != 2:
+        raise Incomplete('expected two subscriber-list cells in %s, found %s' % (adt_path, cells))
+    live = None
+    for im in F.impls.values():
+        if roles.impl_tag(cx, im) == adt_path and not im.get('trait'):
+            for f in im['fns']:
+                fn = F.fns.get(f['key'])
+                if fn is None:
+                    continue
+                g = cx.graph(fn['key'], inline=False)
+                for n in g.nodes:
+                    if n['kind'] == 'call' and n['name'].rsplit('::', 1)[-1] in ('append', 'extend') and n['args']:
+                        c = recv_class(n['args'][0])
+                        if c.startswith('self.') and c[5:] in cells:
+                            live = c[5:]
+    if live is None:
+        raise Incomplete('no function of %s moves the waiting subscribers into a list (cannot tell the live list from the waiting list)' % adt_path)
+    wait = [c for c in cells if c != live][0]
+    return live, wait
+
+
 def check(cx):
     F = cx.facts
     res = []
@@ -37,6 +65,7 @@ def check(cx):
         tag = roles.impl_tag(cx, im)
         if tag not in subs:
             continue
+        LIVE, WAIT = _lists(cx, tag)
         tr = im.get('trait')
         if tr == 'observer::Observer':
             seen.add(tag)
@@ -50,7 +79,7 @@ def check(cx):
                 guards = set()
                 ok = bool(pubs)
                 for n in pubs:
-                    hs = [h for h in held[n['id']] if h[1] == 'self.observers']
+                    hs = [h for h in held[n['id']] if h[1] == 'self.' + LIVE]
                     if not hs:
                         ok = False
                     guards |= {h[0] for h in hs}
@@ -85,22 +114,41 @@ def check(cx):
                                        'terminal broadcast does not take() the live list: later notifications would still be delivered', fn['span'],
                                        [node_desc(g, n) for n in badt]))
                     filt = [n for n in g.nodes if n['kind'] == 'call' and n['name'] == 'subscriber::Publisher::p_is_closed' and 'std::iter::Iterator::filter' in g.vias(n)]
+                    if not filt:
+                        # loop form: every delivery is reached only through the not-closed branch of a p_is_closed() test
+                        tests = [n for n in g.nodes if n['kind'] == 'call' and n['name'] == 'subscriber::Publisher::p_is_closed']
+                        tv = {strip(n['value']) for n in tests}
+                        from ..core import explore, sw_value, mentions
+
+                        def stepj(st, nd, lab):
+                            d, v = sw_value(lab)
+                            if d is not None and v in (0, 1) and mentions(d, lambda e: strip(e) in tv):
+                                neg = mentions(d, lambda e: e[0] == 'un' and e[1] == 'Not')
+                                st = 'open' if ((v == 0) != neg) else 'closed'
+                            if nd in tests:
+                                return 'asked'
+                            if nd in pubs and st != 'open':
+                                return 'BAD'
+                            return st
+                        rj, pj = explore(g, 'start', stepj)
+                        if tests and not any(k[1] == 'BAD' for k in rj):
+                            filt = tests
                     res.append(Finding(ID, 'J4', label, bool(filt), 'closed subscribers are filtered out of the terminal broadcast' if filt else
                                        'terminal broadcast does not skip closed subscribers', fn['span']))
             fn = F.impl_fn(im, 'is_finished')
-            res.append(_is_none_answer(cx, fn))
+            res.append(_is_none_answer(cx, fn, LIVE))
         elif tr == 'subscription::Subscription':
             fn = F.impl_fn(im, 'unsubscribe')
             g = cx.graph(fn['key'])
             label = cx.label(fn)
-            for cell in ('observers', 'chamber'):
+            for cell in (LIVE, WAIT):
                 def ev(n, cell=cell):
                     if n['kind'] == 'call' and n['name'] in TAKE and n['args'] and recv_class(n['args'][0]) == 'self.' + cell:
                         return ('take',)
                     return None
                 bad = lang_check(g, 'take', ev, exact=True, empty_ok=False)
                 res.append(Finding(ID, 'J3', label + '|' + cell, not bad, ('unsubscribe must take the %s list: %s' % (cell, bad[0])) if bad else 'takes ' + cell, fn['span'], bad[1] if bad else None))
-            res.append(_is_none_answer(cx, F.impl_fn(im, 'is_closed')))
+            res.append(_is_none_answer(cx, F.impl_fn(im, 'is_closed'), LIVE))
         elif tr == 'observable::Observable':
             fn = F.impl_fn(im, 'actual_subscribe')
             g = cx.graph(fn['key'])
@@ -108,7 +156,7 @@ def check(cx):
 
             def ev(n):
                 if n['kind'] == 'call' and n['name'].rsplit('::', 1)[-1] in ('push', 'insert', 'append', 'extend', 'push_back') and n['args']:
-                    return ('push_' + recv_class(n['args'][0]).split('.')[-1],)
+                    return ('push_chamber' if recv_class(n['args'][0]) == 'self.' + WAIT else 'push_' + recv_class(n['args'][0]).split('.')[-1],)
                 if n['kind'] in ('call', 'enter') and n['name'].endswith('::new') and 'Subscriber' in n['name'] and n['args']:
                     a = strip(n['args'][0])
                     if a[0] == 'agg' and a[2].endswith('Option::None'):
@@ -127,11 +175,11 @@ def check(cx):
                     continue
                 g = cx.graph(fn['key'], inline=False)
                 moves = [n for n in g.nodes if n['kind'] == 'call' and n['name'].rsplit('::', 1)[-1] in ('push', 'insert', 'append', 'extend') and n['args']
-                         and recv_class(n['args'][0]) == 'self.observers']
+                         and recv_class(n['args'][0]) == 'self.' + LIVE]
                 if f['n'] == 'load':
                     held = lock_scopes(g)
-                    acq = [n for n in g.nodes if n['kind'] == 'call' and n['name'] in ('rc::RcDeref::rc_deref', 'rc::RcDerefMut::rc_deref_mut') and n['args'] and recv_class(n['args'][0]) == 'self.chamber']
-                    atomic = bool(acq) and all(any(h[1] == 'self.observers' for h in held[n['id']]) for n in acq)
+                    acq = [n for n in g.nodes if n['kind'] == 'call' and n['name'] in ('rc::RcDeref::rc_deref', 'rc::RcDerefMut::rc_deref_mut') and n['args'] and recv_class(n['args'][0]) == 'self.' + WAIT]
+                    atomic = bool(acq) and all(any(h[1] == 'self.' + LIVE for h in held[n['id']]) for n in acq)
                     ok = bool(moves) and atomic
                     res.append(Finding(ID, 'J2', cx.label(fn), ok,
                                        'load() moves the chamber into the live list under the observers guard' if ok else
@@ -148,10 +196,10 @@ def check(cx):
     return res
 
 
-def _is_none_answer(cx, fn):
+def _is_none_answer(cx, fn, live='observers'):
     g = cx.graph(fn['key'])
     label = cx.label(fn)
-    isn = [n for n in g.nodes if n['kind'] == 'call' and n['name'] == 'std::option::Option::is_none' and n['args'] and recv_class(n['args'][0]) == 'self.observers']
+    isn = [n for n in g.nodes if n['kind'] == 'call' and n['name'] == 'std::option::Option::is_none' and n['args'] and recv_class(n['args'][0]) == 'self.' + live]
     consts = [n for n in g.nodes if n['kind'] == 'assign' and not n['ctx'] and n['lhs'][0] == 'local' and n['lhs'][1] == 0 and const_bool(n['rhs']) is not None]
     ok = len(isn) == 1 and not consts
     return Finding('C06', 'J3', label, ok, 'answers observers.is_none()' if ok else 'does not answer from the live list being None', fn['span'])
